@@ -453,6 +453,18 @@ func (e *env) partFiles() {
 		def := baseFile{name: "api-default", data: fd, pass: "default pw", want: resultOf(wd)}
 		e.openCase(def, def.data, "default pw", "intact")
 	}
+	// --- the same for a wallet RESTORED from its mnemonic with the default parameter set (the second place where the
+	// API chooses Argon2 parameters): the file it writes must open with its password to the same key
+	if e.mine() {
+		wr, fr, err := wallet.CreateWalletFromMnemonic(rpcAddr, mn, "restored pw", false)
+		if err != nil {
+			panic(err)
+		}
+		_ = wr
+		// same mnemonic as the base wallet: the key and address a file-opened wallet reports
+		res := baseFile{name: "api-restore-default", data: fr, pass: "restored pw", want: want}
+		e.openCase(res, res.data, "restored pw", "intact")
+	}
 }
 
 func hdrField(by int) string {
